@@ -28,6 +28,79 @@ fn real_main() -> i32 {
         return usage();
     }
     match args[1].as_str() {
+        "commands" => {
+            let mut c = duckscript::types::command::Commands::new();
+            duckscriptsdk::load(&mut c).unwrap();
+            for n in c.get_all_command_names() {
+                let cmd = c.get(&n).unwrap();
+                println!("{} {:?} {}", n, cmd.aliases(), if cmd.help().contains("#### Source:") { "SCRIPT" } else { "" });
+            }
+            0
+        }
+        "one" => {
+            // debugging aid: generate run <index> of a property, execute it in one worker, print everything
+            let prop = match args.get(2).and_then(|id| props::by_id(id)) {
+                Some(p) => p,
+                None => return usage(),
+            };
+            let seed = arg_value(&args, "--seed").and_then(|v| v.parse::<u64>().ok()).unwrap_or(1);
+            let index = arg_value(&args, "--index").and_then(|v| v.parse::<u64>().ok()).unwrap_or(0);
+            let case = driver::regenerate_case(prop, seed, index, &[]);
+            if args.iter().any(|a| a == "--print") {
+                println!("{}", serde_json::to_string_pretty(&case).unwrap());
+            }
+            let t0 = std::time::Instant::now();
+            let pool = driver::Pool { prop, workers: 1, duck: arg_value(&args, "--duck").map(PathBuf::from), avoid: vec![] };
+            match pool.eval_cases(&[case]) {
+                Ok(rs) => {
+                    let r = &rs[0];
+                    println!("verdict={} steps={} nt={} wall={:.3}s", r["verdict"], r["steps"], r["nt"], t0.elapsed().as_secs_f64());
+                    if args.iter().any(|a| a == "--log") {
+                        if let Some(l) = r["log"].as_array() {
+                            for e in l {
+                                println!("  {}", e);
+                            }
+                        }
+                    }
+                    println!("probes={} fired={}", r["probes"], r["fired"]);
+                }
+                Err(e) => println!("error: {}", e),
+            }
+            driver::clean_own_jails(1);
+            0
+        }
+        "bench" => {
+            let t = std::time::Instant::now();
+            for _ in 0..200 {
+                let c = props::gen::sdk_context();
+                std::hint::black_box(&c);
+            }
+            println!("sdk_context: {:?} per call", t.elapsed() / 200);
+            let base = props::gen::sdk_context();
+            let t = std::time::Instant::now();
+            for _ in 0..200 {
+                let c = base.clone();
+                std::hint::black_box(&c);
+            }
+            println!("context clone: {:?} per call", t.elapsed() / 200);
+            let t = std::time::Instant::now();
+            for _ in 0..200 {
+                let mut c = base.clone();
+                sim::reset(None);
+                sim::decorate(&mut c.commands);
+                std::hint::black_box(&c);
+            }
+            println!("clone+decorate: {:?} per call", t.elapsed() / 200);
+            for kb in [64usize, 256, 1024, 2048, 8192, 16384] {
+                let t = std::time::Instant::now();
+                for _ in 0..200 {
+                    let h = std::thread::Builder::new().stack_size(kb << 10).spawn(|| 1).unwrap();
+                    let _ = h.join();
+                }
+                println!("thread spawn+join, {} KiB stack: {:?} per call", kb, t.elapsed() / 200);
+            }
+            0
+        }
         "list" => {
             for p in props::all() {
                 println!("{}", p.id());
